@@ -71,7 +71,9 @@ def redeclare(spec):
 def check_case(acc, chain_l, cur, locking, load, duty, init=None, redeclared=False, teeth_mode='rotating', reeta=False):
     chain_l = [tuple(x) for x in chain_l]
     spec = menu.assign(chain_l, motor=menu.MOTOR_CUR if cur else menu.MOTOR_PLAIN, locking=locking,
-                       init=init or {'theta': [0.2, 'rad'], 'w': [1.5, 'rad/s']}, teeth_mode=teeth_mode)
+                       init=init or ({'theta': [0.2, 'rad'], 'w': [1.5, 'rad/s']} if load[0] != 'pos' else
+                                     {'theta': [-20.5, 'rad'] if duty[0] == 1 else [7.5, 'rad'], 'w': [1.5, 'rad/s']}),
+                       teeth_mode=teeth_mode)      # position-dependent loads start several revolutions away from 0
     if redeclared and not redeclare(spec):
         return
     stall = menu.stall_at_output(spec)
